@@ -243,6 +243,9 @@ def run_history(kind, hist, tmp, cmd="num-running", early=None):
                 r._buffer.clear()
                 if this_cmd == "num-running":
                     want = str(expected_running).encode() + b"\n"
+                elif this_cmd.startswith("cancel 7 "):
+                    # an argument with an unbalanced quote, for a task that does not exist: answered (with an error text), never fatal
+                    want = got if got.strip() and (stopped or not r._eof) else b"<any reply>"
                 elif this_cmd.endswith(" -h"):
                     # help of a sub-command: printed by the session's own sub-parser into this session's reply
                     want = got if got.startswith(b"usage: " + this_cmd[:-3].encode()) else b"usage: " + this_cmd[:-3].encode() + b" ..."
@@ -607,6 +610,8 @@ def run(tier, seed):
         both = [h for h in histories(2) if sum(1 for _, e in h if e == "cmd") == 2]
         hw = [h for h in both if [e for c, e in h if c == 0][-1] == "close" and [e for c, e in h if c == 1][-1] == "close"]
         work += [(kind, hw[i::jobs], "wait|num-running") for i in range(jobs)]
+        # a command whose optional argument carries an unbalanced quote
+        work += [(kind, hw[i::jobs], "cancel 7 --msg 'tis") for i in range(jobs)]
         # both clients ask for a sub-command's help (output produced by the session's own parser objects)
         work += [(kind, hw[i::jobs], "stop -h") for i in range(jobs)]
         # ... and parked in gather-and-close (the pool's one task keeps running): a client leaving must not touch the task
